@@ -61,11 +61,13 @@ fn main() {
             let n: u64 = args[6].parse().unwrap();
             let out = std::path::PathBuf::from(&args[7]);
             let only = args.get(8).and_then(|s| s.parse::<u64>().ok());
+            let start = args.get(9).and_then(|s| s.parse::<u64>().ok());
+            let skip: Vec<u64> = args.get(10).map(|s| s.split(',').filter_map(|x| x.parse().ok()).collect()).unwrap_or_default();
             let Some(m) = mon::monitor(prop, tier) else {
                 eprintln!("unknown property {prop}");
                 std::process::exit(2);
             };
-            worker_main(m, prop, tier, seed, i, n, &out, only);
+            worker_main(m, prop, tier, seed, i, n, &out, only, start, &skip);
         }
         "replay" => {
             // replay <prop> <file>
